@@ -267,7 +267,8 @@ def _floyd_block(bct, res, case, A, transform, Lm, oracle, best, tol, exact, rou
             paths.append(plist)
             unreachable = math.isinf(oracle[s, t])
             if (len(plist) == 0) != unreachable:
-                res['fails'].append(('retrieve_shortest_path', 'empty-iff-unreachable', {'s': s, 't': t, 'transform': transform, 'path': plist, 'dist': fstr(oracle[s, t])}))
+                res['fails'].append(('retrieve_shortest_path', 'empty-iff-unreachable', {'s': s, 't': t, 'transform': transform, 'path': plist, 'dist': fstr(oracle[s, t]),
+                                                                                         'cond': {'inexact_floats': not exact}}))
             elif plist:
                 npaths += 1
                 bad = check_path(plist, s, t, Lm, hops[s, t], SPL[s, t], tol)
@@ -275,7 +276,8 @@ def _floyd_block(bct, res, case, A, transform, Lm, oracle, best, tol, exact, rou
                     bad = 'minimum-length'
                 if bad:
                     res['fails'].append(('retrieve_shortest_path', bad, {'s': s, 't': t, 'transform': transform, 'path': plist,
-                                                                           'hops': float(hops[s, t]), 'SPL': fstr(SPL[s, t])}))
+                                                                           'hops': float(hops[s, t]), 'SPL': fstr(SPL[s, t]),
+                                                                           'cond': {'inexact_floats': not exact}}))
     res['stats']['paths_checked'] = res['stats'].get('paths_checked', 0) + npaths
     if exact and all(p is not None for p in paths):
         line = 'floyd n=%d A=%s transform=%s' % (n, mstr(A), transform or 'none')
@@ -330,7 +332,7 @@ def run_case(case):
             _run_bin(bct, case, res)
         elif kind == 'wei':
             _run_wei(bct, case, res)
-        elif kind == 'log':
+        elif kind in ('log', 'flt'):
             _run_log(bct, case, res)
         elif kind == 'nav':
             _run_nav(bct, case, res)
@@ -518,15 +520,27 @@ def _run_wei(bct, case, res):
 
 
 def _run_log(bct, case, res):
-    W = np.array(case['A'], dtype=float); n = len(W)      # weights in (0,1], 0 = no connection
-    with np.errstate(divide='ignore'):
-        Lm = -np.log(W)
-    Lm = Lm + 0.0
+    """inexact float lengths: kind='log' (weights in (0,1], transform 'log') or kind='flt' (decimal lengths k/10, no
+    transform). No model correspondence (sums are not associative in floats); oracles by tolerance."""
+    W = np.array(case['A'], dtype=float); n = len(W)
+    tr = 'log' if case['kind'] == 'log' else None
+    if tr == 'log':
+        with np.errstate(divide='ignore'):
+            Lm = -np.log(W)
+        Lm = Lm + 0.0
+    else:
+        Lm = _lenmat(W)
     oracle = minplus_closure(Lm)
     best = exact_k_lengths(Lm, max(1, n - 1))
     res['stats']['disconnected'] = int(np.isinf(oracle).any())
     res['stats']['multihop'] = 1
-    _floyd_block(bct, res, case, W, 'log', Lm, oracle, best, TOL, False, rout=case.get('only') != 'floyd')
+    only = case.get('only') == 'floyd'
+    if tr is None and not only:
+        st, out = call(bct.distance_wei, W.copy(), t=5)
+        if _status(res, 'distance_wei', st, out, case):
+            _cmp_dist(res, 'distance_wei', out[0], oracle, TOL)
+            _cmp_hops(res, 'distance_wei', np.asarray(out[1]), oracle, best, TOL)
+    _floyd_block(bct, res, case, W, tr, Lm, oracle, best, TOL, False, rout=not only)
 
 
 def _run_nav(bct, case, res):
@@ -672,6 +686,15 @@ def _slice(rs, items, k):
     return [items[i] for i in sorted(idx)]
 
 
+FLT_WITNESS = [[0.0, 0.0, 0.0, 0.0, 0.0, 0.1, 0.1], [0.0, 0.0, 0.0, 0.7, 0.4, 0.0, 0.0], [0.0, 0.0, 0.0, 0.1, 0.0, 0.5, 0.0],
+               [0.4, 0.0, 0.0, 0.0, 0.6, 0.1, 0.1], [0.0, 0.0, 0.0, 0.2, 0.0, 0.1, 0.0], [0.1, 0.0, 0.0, 0.0, 0.4, 0.0, 0.0],
+               [0.2, 0.0, 0.3, 0.6, 0.5, 0.1, 0.0]]
+LOG_WITNESS = [[0.0, 0.0, 0.0, 0.0625, 0.0625, 0.09375, 1.0, 0.0], [0.0, 0.0, 0.0625, 0.4375, 0.0, 0.0, 0.0, 0.625],
+               [0.0, 0.0, 0.0, 0.875, 0.0, 0.0, 0.0, 0.0], [0.0, 0.0, 0.0, 0.0, 0.0, 0.0, 0.3125, 0.15625],
+               [0.0, 0.09375, 0.0, 0.25, 0.0, 0.125, 0.0, 0.0], [0.375, 0.0, 0.09375, 0.0, 0.25, 0.0, 0.0, 0.0],
+               [0.0, 0.0, 0.3125, 0.375, 0.0, 0.03125, 0.0, 0.5], [0.0, 0.0, 0.0, 0.5, 0.4375, 1.0, 0.0, 0.0]]
+
+
 def gen_dist_cases(rs, tier):
     """cases for C03 / the retrieve half of C12"""
     big = tier == 'thorough'
@@ -730,6 +753,14 @@ def gen_dist_cases(rs, tier):
         if rs.rand() < .5:
             W = W * (rs.randint(1, 9, size=W.shape) / 8.0) if directed else W   # weights k/8·2^-j in (0,1]
         add('log', W, gen='rand-log')
+    # --- inexact float lengths (decimal k/10, no transform): oracle by tolerance only
+    for _ in range(nr):
+        n = int(rs.randint(4, 10)); directed = bool(rs.rand() < .7)
+        A = rand_len_graph(rs, n, float(rs.choice([.3, .5, .7])), directed, [1, 2, 3, 4, 5, 6, 7]) / 10.0
+        add('flt', A, gen='rand-decimal')
+    # two fixed witnesses of the float-rounding finding of C12 (ties up to rounding), always run
+    add('flt', FLT_WITNESS, gen='witness-decimal')
+    add('log', LOG_WITNESS, gen='witness-log')
     # --- large binary graphs (oracle only): lollipops (huge walk counts + large diameter), sparse random graphs
     for cp in ([(50, 185), (12, 120)] if not big else [(50, 185), (12, 120), (60, 200), (30, 150), (80, 170)]):
         cases.append({'kind': 'big', 'A': [[0] * (cp[0] + cp[1])], 'lollipop': list(cp), 'gen': 'lollipop'})
